@@ -60,6 +60,13 @@ fn snap_live(l: &Locomotive) -> Option<Snap> {
             edrv: b.edrv.state,
             res: Some(b.res.state),
         }),
+        PowertrainType::HybridLoco(h) => Some(Snap {
+            loco: l.state,
+            fc: Some(h.fc.state),
+            gen: Some(h.gen.state),
+            edrv: h.edrv.state,
+            res: Some(h.res.state),
+        }),
         _ => None,
     }
 }
@@ -76,6 +83,16 @@ fn snaps_hist(l: &Locomotive) -> Vec<Snap> {
             let (r, e) = (b.res.history.state_vec(), b.edrv.history.state_vec());
             let n = ls.len().min(r.len()).min(e.len());
             (0..n).map(|k| Snap { loco: ls[k], fc: None, gen: None, edrv: e[k], res: Some(r[k]) }).collect()
+        }
+        PowertrainType::HybridLoco(h) => {
+            let (f, g, r, e) = (
+                h.fc.history.state_vec(),
+                h.gen.history.state_vec(),
+                h.res.history.state_vec(),
+                h.edrv.history.state_vec(),
+            );
+            let n = ls.len().min(f.len()).min(g.len()).min(r.len()).min(e.len());
+            (0..n).map(|k| Snap { loco: ls[k], fc: Some(f[k]), gen: Some(g[k]), edrv: e[k], res: Some(r[k]) }).collect()
         }
         _ => vec![],
     }
@@ -230,7 +247,7 @@ fn loco_params(desc: &Value) -> (Value, Sc) {
     p.insert("aux".into(), json!(gf(c, "aux") / ps));
     let akd = gf(c, "auxkd");
     p.insert("auxk".into(), json!(if akd > 0.0 { 1.0 / akd } else { 0.0 }));
-    if kind == "bel" {
+    if kind != "conv" {
         p.insert("cap".into(), json!(cap_j));
         p.insert("min_soc".into(), json!(gf(c, "smin") / cap_q));
         p.insert("max_soc".into(), json!(gf(c, "smax") / cap_q));
@@ -248,6 +265,43 @@ fn loco_params(desc: &Value) -> (Value, Sc) {
         }
     }
     (Value::Object(p), Sc { ps, es, ds, cap_j })
+}
+
+/// Builds the unit of a case.  conv / bel through avh::build::loco; a hybrid is assembled from the components of
+/// a conv and a bel unit built from the same parameters (HybridLoco = fc + gen + res + edrv) with the fixed split
+/// `cfg.split2 / 2` (fuel_res_ratio = None) or, for generated cases, the golden-section mode
+/// (desc.hyb = {"ratio":r,"gss":k}).  `cfg.pb0` = shaft power before the first step (a warmed-up engine).
+fn build_unit(desc: &Value, params: &Value, sc: &Sc) -> anyhow::Result<Locomotive> {
+    let c = &desc["cfg"];
+    let kind = gs(c, "kind");
+    let mut l = if kind == "hyb" {
+        let mut pc = params.clone();
+        pc["kind"] = json!("conv");
+        let mut pb = params.clone();
+        pb["kind"] = json!("bel");
+        let conv = build::loco(&pc)?;
+        let bel = build::loco(&pb)?;
+        let mut v = serde_json::to_value(&conv)?;
+        let cv = v["loco_type"]["ConventionalLoco"].clone();
+        let bv = serde_json::to_value(&bel)?["loco_type"]["BatteryElectricLoco"]["res"].clone();
+        let h = desc.get("hyb");
+        let ratio = h.and_then(|x| x.get("ratio")).cloned().unwrap_or(Value::Null);
+        let gss = h.and_then(|x| x.get("gss")).cloned().unwrap_or(Value::Null);
+        v["loco_type"] = json!({"HybridLoco": {"fc": cv["fc"], "gen": cv["gen"], "res": bv, "edrv": cv["edrv"],
+            "fuel_res_split": gf(c, "split2") / 2.0, "fuel_res_ratio": ratio, "gss_interval": gss, "dt": 0.0, "i": 1}});
+        let mut l: Locomotive = serde_json::from_value(v)?;
+        l.init()?;
+        l
+    } else {
+        build::loco(params)?
+    };
+    let pb0 = c.get("pb0").and_then(|x| x.as_f64()).unwrap_or(0.0) / sc.ps;
+    match &mut l.loco_type {
+        PowertrainType::ConventionalLoco(x) => x.fc.state.pwr_brake = uc::W * pb0,
+        PowertrainType::HybridLoco(x) => x.fc.state.pwr_brake = uc::W * pb0,
+        _ => {}
+    }
+    Ok(l)
 }
 
 /// Demand classes relative to the limits just published (same table as PowerFlow!ReqOf); generator-only
@@ -268,6 +322,8 @@ fn materialise(cls: &str, l: &Locomotive, redrv: f64, delta: f64) -> f64 {
         "regenp" => -rg - delta,
         "dyn" => -redrv,
         "dynp" => -redrv - delta,
+        "rate" => redrv,
+        "ratep" => redrv + delta,
         _ => {
             let (h, t) = cls.split_at(1);
             let k: f64 = t.parse().unwrap_or_else(|_| panic!("unknown demand class {cls}"));
@@ -286,7 +342,7 @@ fn exec(desc: &Value, tr: &mut Tracer) -> anyhow::Result<()> {
     let c = &desc["cfg"];
     let redrv = gf(c, "redrv") / sc.ps;
     let delta = gf(c, "delta") / sc.ps;
-    let mut l = build::loco(&params)?;
+    let mut l = build_unit(desc, &params, &sc)?;
     let fresh = l.clone();
     let base = tr.lines; // events of this case are at line(begin) + (tr.lines - base) + 1 when emitted
     // ---- call by call, like LocomotiveSimulation::solve_step (loco_sim.rs:226)
